@@ -143,6 +143,33 @@ func verifC01Known(src []byte, f *File, o verifOpts) bool {
 	if verifKnown("C01-backslash-nul", bsNUL) {
 		return true
 	}
+	// a comment whose text ends in a backslash swallows the newline after it
+	commentCont, caseComments := false, false
+	Walk(f, func(n Node) bool {
+		switch n := n.(type) {
+		case *Comment:
+			if k := len(n.Text); k > 0 && (n.Text[k-1] == '\\' || k > 1 && n.Text[k-1] == '\n' && n.Text[k-2] == '\\') {
+				commentCont = true
+			}
+		case *CaseClause:
+			if len(n.Last) > 0 {
+				caseComments = true
+			}
+			for _, it := range n.Items {
+				if len(it.Comments) > 0 || len(it.Last) > 0 {
+					caseComments = true
+				}
+			}
+		}
+		return true
+	})
+	if verifKnown("C09-comment-backslash-newline", commentCont) {
+		return true
+	}
+	// SwitchCaseIndent: comments inside a case clause are re-indented on every pass
+	if verifKnown("C02-case-comment-indent", caseComments && o.swCase) {
+		return true
+	}
 	// a literal "$" glued to the word part that follows it
 	joined := false
 	Walk(f, func(n Node) bool {
@@ -162,6 +189,16 @@ func verifC01Known(src []byte, f *File, o verifOpts) bool {
 		}
 		return true
 	})
+	if verifParam("lang") == 4 && o.minify {
+		Walk(f, func(n Node) bool {
+			if w, ok := n.(*Word); ok && len(w.Parts) > 0 {
+				if l, ok := w.Parts[len(w.Parts)-1].(*Lit); ok && verifEndsInLoneDollar(l.Value) {
+					joined = true // zsh reads "$+" and "$#" as expansion prefixes
+				}
+			}
+			return true
+		})
+	}
 	if verifKnown("C01-dollar-joined", joined) {
 		return true
 	}
